@@ -2,6 +2,7 @@
 SPECIFICATION Spec
 CONSTANT Scripts <- S_EEXX
 CONSTANT GC0S = {TRUE, FALSE}
+CONSTANT MaxFlips = 2
 INVARIANT AbsOK
 INVARIANT InvCountNonNeg
 INVARIANT InvGcOffWhileInFlight
